@@ -1,3 +1,3 @@
 From Coq Require Import ExtrOcamlBasic ZArith.
-From CppUVerif Require Import C17_Model.
-Extraction "c17_model.ml" C17_Model.run C17_Model.spec C17_Model.valid C17_Model.pool_size BinInt.Z.of_N.
+From CppUVerif Require Import C17_Model C17_ModelP.
+Extraction "c17_model.ml" C17_ModelP.prun C17_ModelP.pspec C17_ModelP.pvalid C17_ModelP.has_throw C17_Model.pool_size BinInt.Z.of_N.
